@@ -168,7 +168,13 @@ func (v4proto) BuildReply(reqWire []byte, kind replyKind, serial uint32, altXid 
 	case rkOtherID:
 		rep.TransactionID = xid4(altXid)
 	case rkWrongHW:
-		switch serial % 3 {
+		switch serial % 5 {
+		case 3:
+			// no hardware address at all (hlen 0)
+			rep.ClientHWAddr = net.HardwareAddr{}
+		case 4:
+			// 16 bytes (the maximum) beginning with the client's six
+			rep.ClientHWAddr = append(append(net.HardwareAddr{}, clientHW...), make([]byte, 10)...)
 		case 0:
 			rep.ClientHWAddr = otherHW
 		case 1:
